@@ -209,6 +209,75 @@ func (c *Ctx) emitSitesFor(fd *ast.FuncDecl, recv types.Object, comp string, bin
 					return true
 				}
 				arg := unparen(x.Args[0])
+				// json.Marshal(recv.view()): what the view method returns on each of its paths is what is encoded
+				if vc, isCall := arg.(*ast.CallExpr); isCall && depth < 2 {
+					if g, ok := c.callee(vc).(*types.Func); ok && g.Pkg() == c.Types {
+						if gfd := c.decl(g); gfd != nil && gfd.Body != nil {
+							var grecv types.Object
+							if se, isSel := unparen(vc.Fun).(*ast.SelectorExpr); isSel && gfd.Recv != nil {
+								if id, isId := unparen(se.X).(*ast.Ident); isId && c.objOf(id) == recv {
+									grecv = c.recvObj(gfd)
+								}
+							}
+							for ai, a := range vc.Args {
+								if id, isId := unparen(a).(*ast.Ident); isId && c.objOf(id) == recv {
+									grecv = c.paramObj(gfd, ai)
+								}
+							}
+							if grecv != nil {
+								base := append([]condLit{}, stack...)
+								for i := range base {
+									if base[i].recv == nil {
+										base[i].recv = recv
+									}
+								}
+								ast.Inspect(gfd.Body, func(k ast.Node) bool {
+									if _, isLit := k.(*ast.FuncLit); isLit {
+										return false
+									}
+									rs, isRet := k.(*ast.ReturnStmt)
+									if !isRet || len(rs.Results) != 1 {
+										return true
+									}
+									conds := append([]condLit{}, base...)
+									for _, cl := range c.condsAt(gfd, rs) {
+										cl.recv = grecv
+										conds = append(conds, cl)
+									}
+									e := unparen(rs.Results[0])
+									if u, isAddr := e.(*ast.UnaryExpr); isAddr && u.Op == token.AND {
+										e = unparen(u.X)
+									}
+									if lit, isLit := e.(*ast.CompositeLit); isLit {
+										uses := false
+										ast.Inspect(lit, func(m ast.Node) bool {
+											if ee, isE := m.(ast.Expr); isE {
+												if p, okp := c.apath(ee); okp && p.Root == grecv {
+													if len(p.Steps) == 0 || p.Steps[0] == comp || comp == "" || c.promotedThrough(grecv.Type(), comp, p.Steps[0]) {
+														uses = true
+													}
+													return false
+												}
+											}
+											return true
+										})
+										if uses {
+											out = append(out, emitSite{st: c.typeOf(lit), conds: conds, pos: lit.Pos(), recv: grecv, lit: lit, litFd: gfd})
+										}
+										return true
+									}
+									if p, okp := c.apath(e); okp && p.Root == grecv {
+										if comp == "" && len(p.Steps) == 0 || len(p.Steps) == 1 && p.Steps[0] == comp {
+											out = append(out, emitSite{st: derefType(c.typeOf(e)), conds: conds, pos: e.Pos(), recv: grecv})
+										}
+									}
+									return true
+								})
+								return true
+							}
+						}
+					}
+				}
 				if u, ok := arg.(*ast.UnaryExpr); ok && u.Op == token.AND {
 					arg = unparen(u.X)
 				}
@@ -751,4 +820,25 @@ func (c *Ctx) proxyPointerMayBeNil(site *emitSite, goName string, env defEnv) st
 		return true
 	})
 	return reason
+}
+
+// promotedThrough: field is a member promoted into t through its embedded component comp.
+func (c *Ctx) promotedThrough(t types.Type, comp, field string) bool {
+	st, ok := derefType(t).Underlying().(*types.Struct)
+	if !ok {
+		return false
+	}
+	for i := 0; i < st.NumFields(); i++ {
+		f := st.Field(i)
+		if f.Name() == comp && f.Embedded() {
+			if cs, ok := derefType(f.Type()).Underlying().(*types.Struct); ok {
+				for k := 0; k < cs.NumFields(); k++ {
+					if cs.Field(k).Name() == field {
+						return true
+					}
+				}
+			}
+		}
+	}
+	return false
 }
